@@ -25,6 +25,7 @@ TNext == \/ Ev("WLoad") /\ WLoad(P) /\ PostOK(Tr[l])
          \/ Ev("FCas") /\ FCas(P) /\ PostOK(Tr[l])
          \/ Ev("CLoad") /\ CLoad(P) /\ PostOK(Tr[l])
          \/ Ev("CClear") /\ CClear(P) /\ PostOK(Tr[l])
+         \/ Ev("CClearFail") /\ CClearFail(P) /\ PostOK(Tr[l])
          \/ Ev("CStore") /\ CStore(P) /\ PostOK(Tr[l])
          \/ Ev("ALoad") /\ ALoad(P) /\ PostOK(Tr[l])
          \/ Ev("ACas") /\ ACas(P) /\ PostOK(Tr[l])
@@ -37,7 +38,7 @@ TNext == \/ Ev("WLoad") /\ WLoad(P) /\ PostOK(Tr[l])
          \/ Ev("Probe") /\ Probe /\ PostOK(Tr[l])
          \/ Ev("Drain") /\ UNCHANGED vars /\ PostOK(Tr[l])    \* marker: end of the bounded gated drain
          \/ /\ Ev("Reset") /\ st' = S0 /\ dl' = "none" /\ pc' = PC0 /\ tmp' = [p \in Procs |-> S0]
-            /\ left' = [w \in Writers |-> Rounds - 1] /\ probe' = "none" /\ hit' = {} /\ spur' = FALSE
+            /\ left' = [w \in Writers |-> Rounds - 1] /\ probe' = "none" /\ hit' = {} /\ spur' = FALSE /\ cfail' = FALSE
             /\ PostOK(Tr[l])
 TSpec == TInit /\ [][TNext]_tv
 Accepted == IF TLCGet("stats").diameter = Len(Tr) THEN TRUE
